@@ -327,6 +327,10 @@ func (x *Exec) firstIndex(st *State, s *Term, c int64) (*Term, *Term) {
 		j := BoundVar("j", SInt)
 		x.ctx.assumeGlobal(st, And(Le(IntLit(0), i), Le(i, strLen(s)), Implies(has, Eq(strAt(s, i), IntLit(c))),
 			Forall([]*Term{j}, Implies(And(Le(IntLit(0), j), Lt(j, i)), Neq(strAt(s, j), IntLit(c))), []*Term{strAt(s, j)})))
+		// ground instances for the first positions (short literals such as period patterns need no matching then)
+		for p := int64(0); p < 10; p++ {
+			x.ctx.assumeGlobal(st, Implies(Lt(IntLit(p), i), Neq(strAt(s, IntLit(p)), IntLit(c))))
+		}
 	}
 	return i, has
 }
